@@ -157,7 +157,9 @@ namespace adept {
       //      s << "Failed to solve symmetric system of equations: LAPACK ?sysv returned code " << status;
       //      throw(matrix_ill_conditioned(s.str() ADEPT_EXCEPTION_LOCATION));
       std::cerr << "Warning: LAPACK solve symmetric system failed (?sysv): trying general (?gesv)\n";
-      return solve(Array<2,T,false>(A_),b_);
+      // A_ now holds what ?sysv left of its factorization: the general
+      // solver must be given the original matrix
+      return solve(Array<2,T,false>(A),b);
     }
     return b_;    
   }
